@@ -1142,7 +1142,12 @@ func (v *View) checkC11(res *Result) {
 				res.viol("C11", "grace-callback", "no-demote-callback-at-grace-expiry", fmt.Sprintf("%s demoted at %v without demotion callback", is.Name, t.DownVT), t.Down)
 			}
 		}
-		// (c) reconnect verification
+		// (c') every reconnect notification to a leader is followed by a FRESH read: if from
+		// 100 ms after the notification until well after a verification could have finished
+		// (100 ms + two reads) the live record never showed the leader's id and token, the
+		// store answered this client promptly and nothing else intervened, the instance must
+		// not lead that term any more at the next quiescent point
+		fiv := v.faultIvals()
 		for _, n := range notes {
 			if n.kind != "R" {
 				continue
@@ -1151,32 +1156,120 @@ func (v *View) checkC11(res *Result) {
 			if t == nil {
 				continue
 			}
-			// outcome log of the verification goroutine
-			out, outIdx := "", -1
-			for j := n.idx; j < len(v.Ev); j++ {
-				e := v.Ev[j]
-				if e.Inst != is.Name || e.Kind != "log" {
+			from := n.vt + 100*time.Millisecond
+			to := from + 4*v.maxLeg() + 2*time.Millisecond
+			to += v.slack(n.vt, to)
+			if v.End >= 0 && to >= v.End {
+				continue
+			}
+			// reads issued in [from, to] by this client must not be held or faulted
+			bad := false
+			for _, iv := range fiv[is.Name] {
+				if iv.b >= from && iv.a <= to {
+					// a held call that was ISSUED before `from` (an older verification's read) does
+					// not excuse the missing fresh read; one issued inside the window does
+					if iv.a >= from {
+						bad = true
+					}
+				}
+			}
+			for _, a := range v.APIs {
+				if a.Inst == is.Name && a.IsStop() && a.CallVT <= to && (a.Ret < 0 || a.RetVT >= n.vt) {
+					bad = true
+				}
+			}
+			if bad {
+				continue
+			}
+			own := false
+			for _, ver := range v.versions(is.Group) {
+				vf, vt2 := v.Ev[ver.from].VT, v.lastVT()
+				if ver.to < len(v.Ev) {
+					vt2 = v.Ev[ver.to].VT
+				}
+				if vt2 < from || vf > to {
 					continue
 				}
-				if e.Msg == "reconnect_verification_failed" || e.Msg == "reconnect_verification_success" {
-					out, outIdx = e.Msg, j
-					break
+				id, tok, _ := DecodeIDToken([]byte(ver.val))
+				if id == is.Name && tok == t.Token {
+					own = true
 				}
-				if e.Msg == "connection_reconnected" && j > n.ret && n.ret >= 0 {
+			}
+			if own {
+				continue
+			}
+			q := -1
+			for j := v.seqAt(to); j < len(v.Ev) && j < v.EndSeq; j++ {
+				if v.Ev[j].Kind == "quiescent" && v.Ev[j].Inst == is.Name && v.Ev[j].VT > to {
+					q = j
 					break
 				}
 			}
-			if outIdx < 0 {
-				res.Obs["c11.verifications_without_outcome"]++
+			if q < 0 {
+				continue
+			}
+			res.Obs["c11.fresh_read_obligations"]++
+			if (t.Down < 0 || t.Down > q) && !v.inStopAt(is.Name, q) {
+				res.viol("C11", "verify-fresh-read", "keeps-leadership-without-fresh-read", fmt.Sprintf("%s: reconnect notification at %v; from %v to %v the live record never showed its id and token, yet it still leads term %s at %v", is.Name, n.vt, from, to, t.Token, v.Ev[q].VT), n.idx)
+			}
+		}
+		// (c) reconnect verification. Verifications can overlap (flapping): each one is
+		// identified by its goroutine. The k-th "verifying_leadership_after_reconnect" log
+		// (written by the notification dispatcher under the election mutex) belongs to the
+		// k-th verification goroutine in creation order (goroutine ids are monotonic).
+		var verifying []int
+		type outc struct {
+			g   uint64
+			idx int
+			msg string
+		}
+		var outs []outc
+		for j, e := range v.Ev {
+			if e.Inst != is.Name || e.Kind != "log" {
+				continue
+			}
+			switch e.Msg {
+			case "verifying_leadership_after_reconnect":
+				verifying = append(verifying, j)
+			case "reconnect_verification_failed", "reconnect_verification_success":
+				outs = append(outs, outc{e.G, j, e.Msg})
+			}
+		}
+		sort.Slice(outs, func(a, b int) bool { return outs[a].g < outs[b].g })
+		if len(outs) != len(verifying) {
+			res.Obs["c11.verifications_unpaired"] += len(verifying)
+			continue
+		}
+		for k, vi := range verifying {
+			o := outs[k]
+			if o.idx < vi {
+				continue
+			}
+			t := v.termAt(is.Name, vi)
+			if t == nil {
 				continue
 			}
 			res.Obs["c11.verifications"]++
-			nReads, good, bad := 0, 0, 0
+			// the verification's reads: the connection-test Get on the verification goroutine
+			// and the validation Get issued when that one returned
+			var first *StoreCall
 			for _, c := range v.CallsL {
-				if c.Inst != is.Name || c.Op != "Get" || c.IssueVT < n.vt+100*time.Millisecond || c.Issue > outIdx {
-					continue
+				if c.Inst == is.Name && c.Op == "Get" && c.G == o.g && c.Issue > vi && c.Issue < o.idx {
+					first = c
+					break
 				}
-				nReads++
+			}
+			if first == nil || first.Return < 0 || first.Return > o.idx {
+				continue
+			}
+			reads := []*StoreCall{first}
+			for _, c := range v.CallsL {
+				if c.Inst == is.Name && c.Op == "Get" && c != first && c.Issue > first.Return && c.Issue < o.idx && c.IssueVT == first.ReturnVT && c.Return >= 0 && c.Return < o.idx {
+					reads = append(reads, c)
+				}
+			}
+			good, bad := 0, 0
+			for _, c := range reads {
 				id, tok, _ := DecodeIDToken([]byte(c.Val))
 				if c.Apply >= 0 && c.OK && id == is.Name && tok == t.Token {
 					good++
@@ -1184,24 +1277,20 @@ func (v *View) checkC11(res *Result) {
 					bad++
 				}
 			}
-			if nReads == 0 {
-				continue
-			}
-			stillTerm := t.Down < 0 || t.Down > outIdx
-			q := v.nextQuiescent(is.Name, outIdx)
+			q := v.nextQuiescent(is.Name, o.idx)
 			if q < 0 {
 				continue
 			}
-			ledAtQ := t.Down < 0 || t.Down > q
-			if good == nReads {
+			stillTerm := t.Down < 0 || t.Down > q
+			if good == len(reads) {
 				res.Obs["c11.verifications_ok"]++
-				if t.Down >= 0 && t.Cause == "reconnect_verification" && t.Down <= q {
-					res.viol("C11", "verify-false-negative", "demoted-although-verification-reads-own-record", fmt.Sprintf("%s demoted by reconnect verification although all %d reads showed its record", is.Name, nReads), t.Down)
+				if t.Down >= 0 && t.Cause == "reconnect_verification" && t.Down <= q && v.Ev[t.Down].G == o.g {
+					res.viol("C11", "verify-false-negative", "demoted-although-verification-reads-own-record", fmt.Sprintf("%s demoted by reconnect verification although all %d reads showed its record", is.Name, len(reads)), t.Down)
 				}
-			} else if bad == nReads {
+			} else if bad == len(reads) {
 				res.Obs["c11.verifications_must_fail"]++
-				if stillTerm && ledAtQ && !v.inStopAt(is.Name, q) {
-					res.viol("C11", "verify-false-positive", "keeps-leadership-although-verification-reads-failed:"+out, fmt.Sprintf("%s still leader at %v although all %d verification reads failed or showed another owner", is.Name, v.Ev[q].VT, nReads), outIdx)
+				if stillTerm && !v.inStopAt(is.Name, q) {
+					res.viol("C11", "verify-false-positive", "keeps-leadership-although-verification-reads-failed:"+o.msg, fmt.Sprintf("%s still leads at %v although all %d reads of the verification failed or showed another owner", is.Name, v.Ev[q].VT, len(reads)), o.idx)
 				}
 			} else {
 				res.Obs["c11.verifications_mixed"]++
